@@ -40,7 +40,7 @@ def run(ctx):
     from . import c01
     c01.lost_error(ctx)
     # --- sampled part
-    mods, stats = corpus.pick(ctx, "c03", 40 if ctx.quick else 277, 60 if ctx.quick else 1500, 30 if ctx.quick else 600)
+    mods, stats = corpus.pick(ctx, "c03", 40 if ctx.quick else 277, 60 if ctx.quick else 1500, 150 if ctx.quick else 1500)
     cases = [{"id": k, "op": "corpus.lint", "files": [{"name": n, "content": c}]} for k, (n, c) in enumerate(mods)]
     # batches: one unusual file among ordinary ones
     rng = ctx.rng("batch")
